@@ -8,7 +8,7 @@ import c12
 
 CONFIGS_QUICK = ["F_all", "F_def"]  # every configuration whose cfg-gated code the property depends on
 CONFIGS_THOROUGH = ["F_all", "F_def"]
-TECHNIQUE = 'static analysis: who-reads-which-flag confinement over all Config field reads in the crate, option-only-adds path rules, sibling contradiction rule (is_empty guard) on Text-producing paths, save/restore of the one option written while reading, comment-scan window rule'
+TECHNIQUE = 'static analysis: who-reads-which-flag confinement over all Config field reads in the crate, option-only-adds path rules, sibling contradiction rule (is_empty guard) on Text-producing paths, save/restore of the one option written while reading, comment-scan window rule, End-payload rule on every End exit of emit_end'
 EXPLANATION = (
     "Flag confinement: every read of a reader::Config field in the whole crate is enumerated (operands whose place "
     "projects a field of Config) and must lie in the function documented for that flag (end-tag flags only in emit_end, "
